@@ -81,12 +81,13 @@ def run(tier, replay=None):
     # fork directories of mapped calls on real runs
     nforks = 0
     if not replay:
-        progs = [p for p in shapes.catalogue() if p["name"] in ("map_keys", "keys_suffix", "keys_encoded", "keys_dots", "keys_fork", "map_static")]
+        progs = [p for p in shapes.catalogue() if p["name"] in ("map_keys", "keys_suffix", "keys_encoded", "keys_dots", "keys_fork", "map_static",
+                                                                 "map_projkeys", "map_dynkeys_split", "nest_arr_map")]
         sem, _ = psrun.semantics(progs)
         specs = []
         for p in progs:
-            for s in range(3):
-                specs.append(psrun.make_spec(p, sem[p["name"]], {"kind": "random", "seed": rng.randrange(1 << 30), "penv": [0.2, 0.5, 0.9][s]},
+            for s in range(5):
+                specs.append(psrun.make_spec(p, sem[p["name"]], {"kind": "random", "seed": rng.randrange(1 << 30), "penv": [0.2, 0.5, 0.9, 0.4, 0.7][s]},
                                              name="%s#%d" % (p["name"], s)))
         res = psrun.run_specs(specs, nproc=6)
         first = {}
